@@ -553,6 +553,28 @@ theorem c03_truncated_stream {V : Type} (cd : Codec V) (max : Nat) (hmax : max <
   recvAll_frames cd max hmax frames _ .eof hf
     (endsWith_truncated max b k hb (by omega) hk) rfl c hc
 
+/-- **a peer that stalls inside or between frames** for longer than the read deadline: the
+complete frames before the stall are received, the connection is closed by the time-out, and
+nothing the peer writes afterwards is interpreted (the events do not mention it) -/
+theorem c03_stall_closes {V : Type} (cd : Codec V) (max : Nat) (hmax : max < 2^32)
+    (frames : List (List Nat)) (b : List Nat) (k : Nat)
+    (hf : ∀ f ∈ frames, f.length ≤ max) (hb : b.length ≤ max) (hk : k < (encFrame b).length)
+    (c : Segs) (hc : c.flatten = wire frames ++ (encFrame b).take k) :
+    stalled (recvAll cd max c) = frames.map (classify cd) ++ [.closed .timeout] := by
+  rw [c03_truncated_stream cd max hmax frames b k hf hb hk c hc]
+  unfold stalled
+  rw [List.map_append]
+  congr 1
+  rw [List.map_congr_left (g := id)]
+  · simp
+  · intro e he
+    obtain ⟨f, _, rfl⟩ := List.mem_map.mp he
+    have := classify_not_closed cd f
+    cases hcl : classify cd f with
+    | deliver v => rfl
+    | refused e => rfl
+    | closed e => rw [hcl] at this; simp [Event.isClosed] at this
+
 /-- the codec the driver runs is sound whenever no sendable buffer is in the refusal table -/
 theorem tableCodec_sound (reg bad : List (List Nat))
     (h : ∀ v, (Drv.tableCodec reg bad).sendable v = true → bad.contains v = false) :
